@@ -14,6 +14,7 @@ fn panel() -> Vec<Value> {
     v.push(json!({"a": [{"a": 1, "b": 1}, {"a": "x", "b": 2}, [1, 2, [3]], "x"], "b": {"a": 1, "p": "x"}, "p": "x", "c": 1, "_b1": [0]}));
     v.push(json!([[1, 2, 3], {"a": [1, 2, 3], "b": 15}, {"a": {"a": "s", "p": "s"}, "b": "y"}, 15, "x", "y", true, null, 1]));
     v.push(json!({"a": "s", "b": 1, "p": "s"}));
+    v.push(json!([{"a": {"b": 1}}, {"ab": 1}, {"a": [0, 1], "a1": 2}, {"a": [0, 2], "a1": 1}, {"a": {"b": 2}, "ab": 1}, {"a": 1}]));
     // the same documents with decoy members whose NAMES are the spellings of their siblings' names (`'a'`, `"a"`,
     // `.a`, `['a']`): no spelling of a name selector may pick them up, every spelling of a wildcard must
     let n = v.len();
